@@ -14,11 +14,13 @@
 (* represented by one member of each class.                                *)
 (*                                                                         *)
 (* Apply(s, c, i) is a function of the state, the command and the log      *)
-(* index: replay determinism is by construction in the model; what the     *)
-(* model can violate -- and does, as the code is written -- is             *)
-(*   restore fidelity    Restore(Snapshot(s)) = s                          *)
-(*   index agreement     indexes = recomputed from the primaries           *)
-(*   the C23 role invariants.                                              *)
+(* index: replay determinism is by construction in the model.  With        *)
+(* AsWritten = FALSE (the code after the four fix commits) the model        *)
+(* satisfies RestoreFidelity and IndexAgreement in every reachable state;   *)
+(* AsWritten = TRUE is the code as first read and is kept as a negative     *)
+(* control (NegCtl_*.cfg: TLC must find the counterexample).  The C23       *)
+(* role invariants are still violated by AddNode/UpdateNode (whole-record   *)
+(* replacement) and are probed, not asserted.                               *)
 (* The real code is judged by the Go driver (real-vs-real); this module    *)
 (* supplies the histories and the predicted state (drift detector).        *)
 (***************************************************************************)
@@ -28,7 +30,9 @@ CONSTANTS NodeIds,    \* node universe, e.g. {"n1","n2","n3"}
           MaxLen,     \* log entries per history
           Focus,      \* subset of {"node","file","token","rbac"}: command families enabled
           Emit,       \* "none" | "edge" (every explored transition) | "end" (end of a simulated history)
-          MaxBatch    \* ops per CommandBatchFileOps (1..MaxBatch)
+          MaxBatch,   \* ops per CommandBatchFileOps (1..MaxBatch)
+          AsWritten   \* FALSE: the code as it is now (fix commits 0053d98 c0a37a3 26e1696 954316d in /repo);
+                      \* TRUE: the code as first read (negative control: TLC must reject it)
 
 VARIABLES st, idx, hist
 vars == <<st, idx, hist>>
@@ -70,18 +74,23 @@ ApplyPutNode(s, c) ==
     R([s EXCEPT !.nodes = {x \in s.nodes : x.id # c.id}
                            \cup {[id |-> c.id, role |-> c.role, ws |-> c.ws, state |-> c.state]}], TRUE)
 
-\* applyRemoveNode: primaryWriterID / activeCompactorID are not touched
-ApplyRemoveNode(s, c) == R([s EXCEPT !.nodes = {x \in s.nodes : x.id # c.id}], TRUE)
+\* applyRemoveNode: primaryWriterID is cleared when it names the removed node (as first written: not
+\* touched); activeCompactorID is never touched
+ApplyRemoveNode(s, c) ==
+    R([s EXCEPT !.nodes = {x \in s.nodes : x.id # c.id},
+                !.primary = IF ~AsWritten /\ @ = c.id THEN "" ELSE @], TRUE)
 
 ApplyNodeState(s, c) ==
     IF HasNode(s, c.id)
       THEN R([s EXCEPT !.nodes = {IF x.id = c.id THEN [x EXCEPT !.state = c.state] ELSE x : x \in s.nodes}], TRUE)
       ELSE R(s, FALSE)
 
-\* applyPromoteWriter: role check only when the node exists; the old primary is demoted and
-\* primaryWriterID is assigned BEFORE the "node not found" error is returned
+\* applyPromoteWriter: an unknown node is refused before any mutation.  (As first written: role check
+\* only when the node exists; the old primary was demoted and primaryWriterID assigned BEFORE the
+\* "node not found" error was returned.)
 ApplyPromote(s, c) ==
     IF c.id = "" THEN R(s, FALSE)
+    ELSE IF ~AsWritten /\ ~HasNode(s, c.id) THEN R(s, FALSE)
     ELSE IF HasNode(s, c.id) /\ Only(NodeOf(s, c.id)).role # "writer" THEN R(s, FALSE)
     ELSE LET old == s.primary
              n1  == IF old # "" /\ old # c.id THEN SetWs(s.nodes, old, "standby") ELSE s.nodes
@@ -102,13 +111,13 @@ ApplyCompactor(s, c) ==
 
 FileOf(s, p) == {x \in s.files : x.path = p}
 
-\* register: index entry always added (also for database "")
-\* update:   index entry added only when database # ""   <-- as written
+\* register and update: index entry always added (also for database "")
+\* (as first written, update added it only when database # "")
 PutFile(s, o, i, isUpdate) ==
     LET old  == FileOf(s, o.path)
         fdb1 == IF old # {} /\ Only(old).db # o.db
                   THEN s.fdb \ {[db |-> Only(old).db, path |-> o.path]} ELSE s.fdb
-        fdb2 == IF isUpdate /\ o.db = "" THEN fdb1 ELSE fdb1 \cup {[db |-> o.db, path |-> o.path]}
+        fdb2 == IF AsWritten /\ isUpdate /\ o.db = "" THEN fdb1 ELSE fdb1 \cup {[db |-> o.db, path |-> o.path]}
     IN [s EXCEPT !.files = (s.files \ old) \cup {[path |-> o.path, db |-> o.db, sz |-> o.sz, lsn |-> i]},
                  !.fdb = fdb2]
 
@@ -149,10 +158,12 @@ ApplyCreateToken(s, c, i) ==
                      !.tpre   = @ \cup {[prefix |-> c.prefix, id |-> i]},
                      !.tname  = @ \cup {[name |-> c.name, id |-> i]}], TRUE)
 
-\* the new name is NOT validated (empty / over-long accepted)     <-- as written
+\* a changed name obeys the rules of validateTokenEntry (as first written it was not validated:
+\* empty / over-long accepted, then quarantined by Restore)
 ApplyUpdateToken(s, c, i) ==
     IF c.id = 0 THEN R(s, FALSE)
     ELSE IF "permissions" \in c.changed /\ ~ValidPerms(c.perms) THEN R(s, FALSE)
+    ELSE IF ~AsWritten /\ "name" \in c.changed /\ ~ValidName(c.name) THEN R(s, FALSE)
     ELSE IF TokOf(s, c.id) = {} THEN R(s, TRUE)                      \* unknown token: dropped, nil
     ELSE LET e == Only(TokOf(s, c.id)) IN
          IF "name" \in c.changed /\ \E b \in s.tname : b.name = c.name /\ b.id # c.id THEN R(s, FALSE)
@@ -561,17 +572,11 @@ UniqueKeys ==
     /\ \A x, y \in st.teams : (x.org = y.org /\ x.name = y.name) => x = y
     /\ \A x, y \in st.mems : (x.token = y.token /\ x.team = y.team) => x = y
 
-\* indexes other than filesByDB always agree with the primaries
-AuthIndexAgreement == LET r == Reindex(st) IN [r EXCEPT !.fdb = st.fdb] = st
-\* filesByDB: fails as written (UpdateFile with database "")
-FileIndexAgreement == Reindex(st).fdb = st.fdb
+\* every secondary index always agrees with the primaries
 IndexAgreement == Reindex(st) = st
 
-\* restore fidelity: fails as written (UpdateToken accepts a name Restore refuses; filesByDB above)
+\* restoring a snapshot reproduces exactly the state it was taken from (every reachable state)
 RestoreFidelity == Restore(st) = st
-\* ... and holds whenever those two deviations have not been exercised
-CleanState == (\A x \in st.tokens : TokenRestorable(x)) /\ FileIndexAgreement
-RestoreFidelityWhenClean == CleanState => Restore(st) = st
 \* restoring never invents anything and is idempotent
 RestoreShrinks == LET r == Restore(st) IN
     /\ r.files \subseteq st.files /\ r.tokens \subseteq st.tokens /\ r.orgs \subseteq st.orgs
